@@ -101,6 +101,8 @@ def installed(db, keep_globals=False):
 @contextlib.contextmanager
 def world(name):
     with installed(get(name)) as db:
+        if INTERLUDE:
+            interlude()
         if WARM:
             warm_up(db)
         yield db
@@ -162,6 +164,7 @@ def mini(kind="base"):
 # cache keyed by the unit label alone, a memo that is not invalidated, a class-level attribute left
 # behind - is then poisoned by operations that are outside the check's own alphabet.
 WARM = False
+INTERLUDE = True  # every entry into a shipped world is preceded by work in two other databases (see interlude)
 
 
 def warm_up(db):
@@ -232,3 +235,102 @@ def warm_up(db):
                     attempt(lambda: db.GetDefaultCategory(spelled))
     except ImportError:
         pass
+
+
+# -- another database in the same process -------------------------------------------------------------
+# A program may work with a second UnitDatabase for a while (PushSingleton / PopSingleton).  Nothing of
+# that may leak into the first one.  Two "contradicting" databases are kept per process: B1 registers the
+# common symbols of the shipped table with DIFFERENT sizes (and other offsets), B2 knows only the base
+# units, so that requests that are valid in the shipped table are rejected there.
+
+_B1 = {
+    "length": ("m", {"cm": (0.0, 0.5), "km": (0.0, 10.0), "mm": (0.0, 0.25), "ft": (0.0, 2.0), "in": (0.0, 0.125), "mi": (0.0, 3.0), "angstrom": (0.0, 1e-3), "dm": (0.0, 0.75)}),
+    "time": ("s", {"min": (0.0, 7.0), "h": (0.0, 11.0), "d": (0.0, 13.0)}),
+    "mass": ("kg", {"g": (0.0, 0.5), "lbm": (0.0, 3.0)}),
+    "temperature": ("K", {"degC": (100.0, 2.0), "degF": (50.0, 3.0), "degR": (0.0, 5.0)}),
+    "pressure": ("Pa", {"bar": (0.0, 3.0), "psi": (0.0, 7.0), "kPa": (0.0, 9.0), "Pa(g)": (17.0, 1.0), "psig": (5.0, 7.0)}),
+    "volume": ("m3", {"cm3": (0.0, 0.5), "L": (0.0, 0.25), "bbl": (0.0, 3.0), "Mcf": (0.0, 5.0), "ft3": (0.0, 7.0)}),
+    "area": ("m2", {"cm2": (0.0, 0.5), "ft2": (0.0, 3.0)}),
+    "volume flow rate": ("m3/s", {"Mcf/d": (0.0, 3.0), "bbl/d": (0.0, 5.0)}),
+    "dimensionless": ("-", {"%": (0.0, 0.5), "ppm": (0.0, 0.25)}),
+}
+_CONTRA = {}
+
+
+def contradicting(kind):
+    db = _CONTRA.get(kind)
+    if db is None:
+        db = UnitDatabase()
+        for qt, (base, units) in _B1.items():
+            db.AddUnitBase(qt, base + "-name", base)
+            if kind == "B1":
+                for u, (a, b) in units.items():
+                    db.AddUnit(qt, u + "-name", u, *_conv(a, b, 1.0, 0.0))
+            db.AddCategory(qt, qt)
+        db.AddCategory("depth", "length")
+        _CONTRA[kind] = db
+    return db
+
+
+def interlude():
+    """Work with the two contradicting databases for a moment (every request wrapped: many are rejected)."""
+    import numpy as np
+
+    from barril.basic.fraction import FractionValue
+    from barril.units import Array, FractionScalar, ObtainQuantity, Scalar
+
+    def attempt(f):
+        try:
+            f()
+        except Exception:
+            pass
+
+    for kind in ("B1", "B2"):
+        other = contradicting(kind)
+        keep = Quantity._EMPTY_QUANTITY
+        UnitDatabase.PushSingleton(other)
+        try:
+            for qt, (base, units) in _B1.items():
+                symbols = [base] + list(units)
+                for u in symbols:
+                    for c in ([qt, "depth"] if qt == "length" else [qt]):
+                        attempt(lambda: Scalar(1.0, u, c))
+                        attempt(lambda: ObtainQuantity(u, c))
+                        attempt(lambda: other.CheckCategoryUnit(c, u))
+                        attempt(lambda: Array([1.0], u, c))
+                    attempt(lambda: ObtainQuantity(u))
+                    attempt(lambda: other.GetDefaultCategory(u))
+                    for v in symbols[:2]:
+                        attempt(lambda: Scalar(2.5, u, qt).GetValue(v))
+                        attempt(lambda: Array(np.array([1.0, 2.0]), u, qt).GetValues(v))
+                        attempt(lambda: Array([1.0, 2.0], u, qt).GetValues(v))
+                        attempt(lambda: Array((1.0, 2.0), u, qt).GetValues(v))
+                        attempt(lambda: other.Convert(qt, u, v, 2.5))
+                        attempt(lambda: other.Convert(qt, u, v, [2.5]))
+                        attempt(lambda: other.Convert(qt, u, v, np.array([2.5])))
+                        attempt(lambda: other.Convert(qt, [(u, 2)], [(v, 2)], 2.5))
+                        attempt(lambda: float(FractionScalar(qt, FractionValue(2, (1, 2)), u).GetValue(v)))
+                        attempt(lambda: Scalar(1.0, u, qt) < Scalar(1.0, v, qt))
+                        attempt(lambda: (Scalar(2.0, u) * Scalar(3.0, u)) * Scalar(5.0, v))
+                        attempt(lambda: (Scalar(2.0, u) * Scalar(3.0, u)) + (Scalar(5.0, v) * Scalar(5.0, v)))
+                        attempt(lambda: (1.0 / Scalar(2.0, u)) + (1.0 / Scalar(5.0, v)))
+                        attempt(lambda: Array(np.array([1.0, 2.0]), u) * (Array(np.array([3.0, 4.0]), v) * Array(np.array([3.0, 4.0]), v)))
+                        attempt(lambda: Array([1.0, 2.0], u) / (Array([3.0, 4.0], v) * Array([3.0, 4.0], v)))
+            attempt(lambda: Quantity.CreateEmpty())
+            attempt(lambda: 2.0 / Array([4.0], "kg"))
+        finally:
+            UnitDatabase.PopSingleton()
+            if keep is None:
+                Quantity._EMPTY_QUANTITY = None
+
+
+@contextlib.contextmanager
+def foreign_singleton():
+    """The contradicting database B1 is the current singleton for the duration of the block: read-only
+    operations on EXISTING objects (comparisons, GetValue(s), validity, formatting) belong to the objects'
+    own database and must not notice."""
+    UnitDatabase.PushSingleton(contradicting("B1"))
+    try:
+        yield
+    finally:
+        UnitDatabase.PopSingleton()
